@@ -197,29 +197,36 @@ func (v *vfC14Totp) user(name string) *vfC14User {
 	return u
 }
 
-// the code to submit: right for the enabled device, right for the disabled one only, or wrong for all
-func (u *vfC14User) code(kind string) int {
-	now := time.Now()
-	valid := map[string]bool{}
-	for _, d := range []time.Duration{-30 * time.Second, 0, 30 * time.Second} {
-		c, _ := totp.GenerateCode(u.secret, now.Add(d))
-		valid[c] = true
+// the code to submit, relative to the time step of `at` (the step validateUserTOTP derives from its
+// t argument): the enabled device's code of that step (good), of the step before (prev) or after
+// (next), a code that is right only for the disabled device (dis), or one that fits nothing (bad).
+// ok=false: the wanted code happens to coincide with the code of an earlier-tried step.
+func (u *vfC14User) code(kind string, at time.Time) (int, bool) {
+	gen := func(secret string, d time.Duration) string {
+		c, _ := totp.GenerateCode(secret, at.Add(d))
+		return c
+	}
+	cur, prev, next := gen(u.secret, 0), gen(u.secret, -30*time.Second), gen(u.secret, 30*time.Second)
+	valid := map[string]bool{cur: true, prev: true, next: true}
+	num := func(c string) int {
+		n, _ := strconv.Atoi(c)
+		return n
 	}
 	switch kind {
 	case "good":
-		c, _ := totp.GenerateCode(u.secret, now)
-		n, _ := strconv.Atoi(c)
-		return n
+		return num(cur), true
+	case "prev":
+		return num(prev), prev != cur
+	case "next":
+		return num(next), next != cur && next != prev
 	case "dis":
-		c, _ := totp.GenerateCode(u.disabled, now)
-		if !valid[c] {
-			n, _ := strconv.Atoi(c)
-			return n
+		if c := gen(u.disabled, 0); !valid[c] {
+			return num(c), true
 		}
 	}
 	for n := 123456; ; n++ {
 		if !valid[fmt.Sprintf("%06d", n)] {
-			return n
+			return n, true
 		}
 	}
 }
@@ -266,7 +273,20 @@ func (v *vfC14Totp) attempt(f []string) string {
 	}
 	u := v.user(f[1])
 	full := v.prefix + f[1]
-	code := u.code(f[4])
+	codeAt := time.Now()
+	if f[0] == "att" {
+		counter, err := strconv.ParseInt(f[3], 10, 64)
+		if err != nil {
+			return "bad-op"
+		}
+		codeAt = time.Unix(counter*30+1, 0)
+	} else if f[4] == "prev" || f[4] == "next" {
+		return "bad-op"
+	}
+	code, distinct := u.code(f[4], codeAt)
+	if !distinct {
+		return "collide"
+	}
 	began := time.Now()
 	realNow := v.advance(gap)
 	before := v.snapshot(full)
@@ -345,7 +365,7 @@ func (v *vfC14Totp) concurrent(f []string) string {
 	}
 	u := v.user(f[1])
 	full := v.prefix + f[1]
-	code := u.code("good")
+	code, _ := u.code("good", time.Unix(counter*30+1, 0))
 	began := time.Now()
 	realNow := v.advance(gap)
 	before := v.snapshot(full)
